@@ -123,6 +123,10 @@ def fmt_2d(rows):
 
 def generate(repo):
     src = strip_comments(open(os.path.join(repo, SRC)).read())
+    # the only preprocessor lines allowed are the include guard (an '#if 0' / '#ifdef' region could hide or swap a table)
+    pp = [' '.join(l.split()) for l in src.split('\n') if l.strip().startswith('#')]
+    if pp != ['#ifndef CPC_COMPRESSION_DATA_HPP_', '#define CPC_COMPRESSION_DATA_HPP_', '#endif']:
+        raise TranslateError('unexpected preprocessor lines in %s: %r' % (SRC, pp[:6]))
     byte_tables = parse_2d(src, 'encoding_tables_for_high_entropy_byte', 'uint16_t', 22, 256, 0xffff)
     unary = parse_1d(src, 'length_limited_unary_encoding_table65', 'uint16_t', 65, 0xffff)
     perms = parse_2d(src, 'column_permutations_for_encoding', 'uint8_t', 16, 56, 0xff)
